@@ -114,6 +114,7 @@ def locale_env():
 
 def prepare(chk):
     core.build("asan")
+    core.build("standard")
     o2_harness()
     asan_harness()
     comma_locale()
@@ -241,6 +242,8 @@ def run_case(ctx, case):
     kind = case["kind"]
     if kind == "e2e":
         return run_e2e(ctx, case)
+    if kind == "default-build":
+        return run_default_build(ctx, case)
     res = core.CaseResult()
     if kind in ("fmt", "parse"):
         args = [kind, case["stratum"], case["seed"], case["count"]]
@@ -550,6 +553,73 @@ def run_e2e(ctx, case):
 # workload
 # ---------------------------------------------------------------------------
 
+SUBNORMALS = ["4.9e-324", "1e-310", "2.225073858507201e-308", "1.5e-315", "3e-320", "2.2250738585072014e-308",
+              "1e-300", "6.5e-311"]
+
+
+def run_default_build(ctx, case):
+    """End to end on the repository's OWN default configuration (Standard: -O3 -ffast-math ...).  The sanitizer
+    flavours are Debug builds, so an effect of the default flags on the tools' arithmetic (flush-to-zero of
+    subnormals through crtfastmath) is only observable here."""
+    res = core.CaseResult()
+    b = core.build("standard")
+    d = ctx.casedir(case["id"])
+    lits = case["literals"]
+    lines = []
+    for i, l in enumerate(lits):
+        lines.append("#define FPM_%d %s" % (i, l))
+        lines.append("void fpf_%d(double d = %s);" % (i, l))
+    hdr = os.path.join(d, "lib.h")
+    open(hdr, "w").write("\n".join(lines) + "\n")
+    r, paths = tools.interrogate(b, [hdr], d, opts=["-c", "-fnames", "-promiscuous"])
+    if r.rc != 0 or r.died() or r.timed_out:
+        res.inconclusive = "interrogate (standard flavour) failed: " + r.how()
+        return res
+    r2, dump = tools.idbdump([paths["od"]])
+    if dump is None:
+        res.inconclusive = "database unreadable"
+        return res
+    import re as _re
+    seen = set()
+    for m in dump["manifests"]:
+        mm = _re.match(r"FPM_(\d+)$", m["name"])
+        if mm:
+            i = int(mm.group(1))
+            res.count("literal_sites_compared")
+            res.features.add("default-build:manifest:" + ("subnormal" if float(lits[i]) < 2.2250738585072014e-308 else "normal"))
+            try:
+                got = float(m["definition"].strip().rstrip("fFlL"))
+            except ValueError:
+                continue
+            if got != float(lits[i]) and ("manifest", i) not in seen:
+                seen.add(("manifest", i))
+                res.violation("e2e-literal-value:cause=default-build-flags,site=manifest," +
+                              ("subnormal->zero" if got == 0.0 else "other"), literal=lits[i], emitted=m["definition"])
+    for f in dump["functions"]:
+        mm = _re.match(r"fpf_(\d+)$", f["name"])
+        if mm:
+            i = int(mm.group(1))
+            pm = _re.search(r"=\s*([^);]+)\)", f["prototype"])
+            if not pm:
+                continue
+            res.count("literal_sites_compared")
+            res.features.add("default-build:proto:" + ("subnormal" if float(lits[i]) < 2.2250738585072014e-308 else "normal"))
+            try:
+                got = float(pm.group(1).strip().rstrip("fFlL"))
+            except ValueError:
+                continue
+            if got != float(lits[i]):
+                res.violation("e2e-literal-value:cause=default-build-flags,site=proto," +
+                              ("subnormal->zero" if got == 0.0 else "other"), literal=lits[i], emitted=pm.group(1))
+    # one report per key
+    uniq = {}
+    for k, dd in res.violations:
+        uniq.setdefault(k, dd)
+    res.violations = list(uniq.items())
+    res.sample = dict(kind="default-build", literals=lits[:4])
+    return res
+
+
 def main(chk):
     chk.rule = ("harness cases: one fp_harness invocation over one (monitor, stratum, sub-seed, count, locale) -- inputs are "
                 "drawn by the harness' splitmix64 generator from the sub-seed; a feature signature is "
@@ -613,6 +683,10 @@ def main(chk):
         hrng = random.Random(rng.getrandbits(64))
         header, truth = fpgen.header(hrng, n_funcs=hrng.randint(4, 10), tag="fp", odd_suffix=(i % 6 == 5))
         cases.append(dict(kind="e2e", header=header, truth=truth, backend=backends[i % len(backends)], locale=(i % 3 == 2)))
+    for i in range(chk.pick(2, 8)):
+        hrng = random.Random(rng.getrandbits(64))
+        lits = hrng.sample(SUBNORMALS, 5) + ["0.1", "1e300", "%.17g" % hrng.uniform(1e-3, 1e3)]
+        cases.append(dict(kind="default-build", fn="run_default_build", literals=lits))
     for i, c in enumerate(cases):
         c["id"] = "k%d" % i
     # long-running slices first
